@@ -4,7 +4,7 @@ from ..oracles import c19
 MODELS = ["Mphys", "Aero"]
 STREAMS = [mphys.stream_mux_demux, aero_streams.stream_system]
 ORACLES = [c19.oracle_composition, c19.oracle_mphys, c19.oracle_mixed_handedness]
-UNPROVED = ["far_surface_vanishes (decay of the kernel with distance) is validated by the oracle only (1e2 .. 1e6 m, outside the wake plane)",
+UNPROVED = ["far surface: each segment / wake leg of the far surface induces at most 1 / (2 pi distance) (C19_far_surface_*: proved; the wake leg bound is in the PERPENDICULAR distance, which is why the oracle places the far surface outside the wake plane); the effect on the solved coefficients is validated by the oracle (1e2 .. 1e6 m)",
             "that splitting a surface yields the same rings (shared cut column) is checked end to end by the oracle; the theorem covers the re-indexing step",
             "the isomorphism of the MPhys wrapper wiring with AeroPoint is validated by running both (oracle), not by a theorem on connection graphs"]
 ASSUMPTIONS = ["CM is normalised by the MAC of the first listed surface (documented): permutation pairs compare forces, CL, CD and per-surface coefficients",
